@@ -1,5 +1,234 @@
-import Robust.Fsm.Model
+import Robust.Fsm.Lemmas
+/-!
+# C02 — compaction is invisible
+
+For any log and any schedule of snapshots, failed snapshot writes, restores from the latest snapshot
+and process restarts, a node ends in the same state as a node that applied the whole log without ever
+snapshotting; every persisted snapshot is complete; the node's log copy and output store hold exactly
+the un-folded commands; and a snapshot step compacts only inputs older than the horizon.
+
+The model is `Robust.Fsm` (`Model.lean`), the inductive invariant is `Robust.Fsm.Inv` (`Lemmas.lean`).
+-/
 namespace Robust.Props.C02
 open Robust.Fsm
-theorem C02_placeholder : (({} : Node).run []).live = [] := rfl
+
+/-- the schedule's committed entries, in order -/
+def commits : List Op → List LogEntry
+  | [] => []
+  | .commit e :: r => e :: commits r
+  | _ :: r => commits r
+
+/-- the committed entries have strictly increasing indexes ≥ 1 (raft assigns them) -/
+def WfOps (ops : List Op) : Prop :=
+  ((commits ops).map (·.idx)).Pairwise (· < ·) ∧ ∀ e ∈ commits ops, 1 ≤ e.idx
+
+/-- what a node that never snapshots holds after applying the committed log -/
+def replayLive (log : List LogEntry) : List Nat := (log.filter (·.isCmd)).map (·.idx)
+
+def replayExp (log : List LogEntry) : Int :=
+  (log.filter (·.isCmd)).foldl (fun ex e => match e.setsExp with | some d => d | none => ex) 600000000000
+
+/-! ## glue to the vocabulary of `Lemmas.lean` -/
+
+theorem commits_eq (ops : List Op) : commits ops = commitsOf ops := by
+  induction ops with
+  | nil => rfl
+  | cons op ops ih => cases op <;> simp [commits, commitsOf, ih]
+
+theorem replayLive_eq (L : List LogEntry) : replayLive L = idxs (cmds L) := rfl
+
+theorem replayExp_eq (L : List LogEntry) : replayExp L = expOf (cmds L) defaultExp := by
+  unfold replayExp expOf cmds defaultExp
+  congr 1
+
+/-- every node reachable by a well-formed schedule satisfies the invariant, over the committed log -/
+theorem reachable_inv (ops : List Op) (h : WfOps ops) :
+    (({} : Node).run ops).raftlog = commits ops ∧ ∃ b, Inv (({} : Node).run ops) b := by
+  have hs : Sorted (({} : Node).raftlog ++ commitsOf ops) := by
+    show Sorted ([] ++ commitsOf ops)
+    rw [List.nil_append, ← commits_eq]
+    exact List.pairwise_map.1 h.1
+  have hp : ∀ e ∈ commitsOf ops, 1 ≤ e.idx := by rw [← commits_eq]; exact h.2
+  obtain ⟨h1, h2⟩ := inv_run ops inv_init hs hp
+  refine ⟨?_, h2⟩
+  rw [h1, commits_eq]; rfl
+
+/-! ## (1) same state as plain replay, for every schedule -/
+
+theorem C02_state_eq_replay (ops : List Op) (h : WfOps ops) :
+    let n := ({} : Node).run ops
+    n.raftlog = commits ops ∧ n.live = replayLive (commits ops) ∧ n.exp = replayExp (commits ops) := by
+  obtain ⟨hl, b, I⟩ := reachable_inv ops h
+  refine ⟨hl, ?_, ?_⟩
+  · rw [replayLive_eq, ← hl]; exact I.live
+  · rw [replayExp_eq, ← hl]; exact I.exp
+
+/-! ## (2) every persisted snapshot is complete -/
+
+theorem C02_snapshot_complete (ops : List Op) (h : WfOps ops) (s : Snap)
+    (hs : s ∈ (({} : Node).run ops).persisted) :
+    s.state ++ replayLive s.retained = replayLive ((commits ops).filter (fun e => e.idx ≤ s.index)) := by
+  obtain ⟨hl, b, I⟩ := reachable_inv ops h
+  have g := I.pers s hs
+  rw [← hl, replayLive_eq, replayLive_eq, g.retained, cmds_between, g.good.st, ← idxs_append,
+    upto_between (sorted_cmds I.sorted) g.le]
+  congr 1
+  exact (cmds_filter_comm _ _).symm
+
+/-- the same for the session expiration carried by the snapshot -/
+theorem C02_snapshot_complete_exp (ops : List Op) (h : WfOps ops) (s : Snap)
+    (hs : s ∈ (({} : Node).run ops).persisted) :
+    expOf s.retained s.stateExp = replayExp ((commits ops).filter (fun e => e.idx ≤ s.index)) ∧
+    s.stateIdx ≤ s.index ∧
+    s.retained = (commits ops).filter (fun e => e.isCmd && decide (s.stateIdx < e.idx ∧ e.idx ≤ s.index)) := by
+  obtain ⟨hl, b, I⟩ := reachable_inv ops h
+  have g := I.pers s hs
+  refine ⟨?_, g.le, ?_⟩
+  · rw [← hl, replayExp_eq, g.retained, g.good.ex, ← expOf_append,
+      upto_between (sorted_cmds I.sorted) g.le]
+    congr 1
+    exact (cmds_filter_comm _ _).symm
+  · rw [← hl, g.retained]
+    simp only [between, cmds, List.filter_filter]
+    apply List.filter_congr; intro x _; exact Bool.and_comm _ _
+
+/-! ## (3) the log copy and the output store hold exactly the un-folded commands -/
+
+theorem C02_unfolded_kept (ops : List Op) (h : WfOps ops) :
+    let n := ({} : Node).run ops
+    (∀ i, i ∈ n.out ↔ i ∈ n.irc.map (·.idx)) ∧
+    ∃ folded, folded ++ n.irc.map (·.idx) = n.live ∧ (n.irc = [] ∨ ∀ i ∈ folded, ∀ e ∈ n.irc, i < e.idx) := by
+  obtain ⟨_, b, I⟩ := reachable_inv ops h
+  refine ⟨I.out, idxs (upto b (cmds (({} : Node).run ops).raftlog)), ?_, Or.inr ?_⟩
+  · show idxs _ ++ idxs _ = _
+    rw [I.live, I.irc, ← idxs_append, sorted_split (sorted_cmds I.sorted)]
+  · intro i hi e he
+    obtain ⟨x, hx, rfl⟩ := List.mem_map.1 hi
+    rw [I.irc] at he
+    have h1 : x.idx ≤ b := by simpa using (List.mem_filter.1 hx).2
+    have h2 : b < e.idx := by simpa using (List.mem_filter.1 he).2
+    omega
+
+/-- sharper form of (3): there is a boundary `b` such that the log copy is *exactly* the list of
+committed commands with index `> b` (identical entries, in order), and the folded part is exactly the
+commands with index `≤ b` -/
+theorem C02_unfolded_exact (ops : List Op) (h : WfOps ops) :
+    let n := ({} : Node).run ops
+    ∃ b, n.irc = (commits ops).filter (fun e => e.isCmd && decide (b < e.idx)) ∧
+         replayLive ((commits ops).filter (fun e => e.idx ≤ b)) ++ n.irc.map (·.idx) = n.live := by
+  obtain ⟨hl, b, I⟩ := reachable_inv ops h
+  refine ⟨b, ?_, ?_⟩
+  · rw [← hl, I.irc]
+    simp only [after, cmds, List.filter_filter]
+    apply List.filter_congr; intro x _; exact Bool.and_comm _ _
+  · rw [← hl, replayLive_eq, cmds_filter_comm]
+    show idxs (upto b _) ++ idxs _ = _
+    rw [I.live, I.irc, ← idxs_append, sorted_split (sorted_cmds I.sorted)]
+
+/-! ## (4) only inputs older than the horizon are compacted by one snapshot step -/
+
+theorem C02_horizon (n n' : Node) (now : Int) (hs : n.snapshot now = some n') (e : LogEntry)
+    (he : e ∈ n.irc) (hne : e ∉ n'.irc) :
+    e.ts ≤ now - ((if n.exp = 0 then 600000000000 else n.exp) + expireSessionsInterval) := by
+  obtain ⟨f, l, _, _, _, hn'⟩ := snapshot_some hs
+  obtain ⟨hsplit, hold, _⟩ := foldOld_spec (horizonOf n now) n.irc
+  rw [hn'] at hne
+  rw [hsplit] at he
+  rcases List.mem_append.1 he with he | he
+  · exact hold e he
+  · exact absurd he hne
+
+/-! ## (5) an input newer than the horizon is still served after the snapshot -/
+
+/-- the log-copy half of (5) holds for every node -/
+theorem C02_recent_kept_irc (n n' : Node) (now : Int) (hs : n.snapshot now = some n') (e : LogEntry)
+    (he : e ∈ n.irc)
+    (hnew : e.ts > now - ((if n.exp = 0 then 600000000000 else n.exp) + expireSessionsInterval)) :
+    e ∈ n'.irc := by
+  obtain ⟨f, l, _, _, _, hn'⟩ := snapshot_some hs
+  obtain ⟨hsplit, hold, _⟩ := foldOld_spec (horizonOf n now) n.irc
+  rw [hn']
+  rw [hsplit] at he
+  rcases List.mem_append.1 he with he | he
+  · have := hold e he
+    exact absurd this (by show ¬ e.ts ≤ horizonOf n now; unfold horizonOf; omega)
+  · exact he
+
+/-- (5) as requested, with the one hypothesis it needs: the indexes in the node's log copy are
+distinct (the store is keyed by index; true for every reachable node, see `C02_recent_kept_reachable`).
+Without it the statement is false, see `C02_recent_kept_needs_distinct`. -/
+theorem C02_recent_kept (n n' : Node) (now : Int) (hs : n.snapshot now = some n') (e : LogEntry)
+    (he : e ∈ n.irc)
+    (hnew : e.ts > now - ((if n.exp = 0 then 600000000000 else n.exp) + expireSessionsInterval))
+    (hd : (n.irc.map (·.idx)).Nodup) :
+    e ∈ n'.irc ∧ (e.idx ∈ n.out → e.idx ∈ n'.out) := by
+  have hirc := C02_recent_kept_irc n n' now hs e he hnew
+  refine ⟨hirc, ?_⟩
+  obtain ⟨f, l, _, _, _, hn'⟩ := snapshot_some hs
+  obtain ⟨hsplit, _, _⟩ := foldOld_spec (horizonOf n now) n.irc
+  rw [hn'] at hirc ⊢
+  intro ho
+  show e.idx ∈ n.out.filter _
+  refine List.mem_filter.2 ⟨ho, ?_⟩
+  have hirc : e ∈ (foldOld (horizonOf n now) n.irc).2.1 := hirc
+  rw [hsplit, List.map_append] at hd
+  have hdis := (List.pairwise_append.1 hd).2.2
+  have : (foldOld (horizonOf n now) n.irc).1.any (fun x => x.idx == e.idx) = false := by
+    apply Bool.eq_false_iff.2
+    intro hany
+    obtain ⟨x, hx, hxe⟩ := List.any_eq_true.1 hany
+    have hxe : x.idx = e.idx := by simpa using hxe
+    exact hdis x.idx (List.mem_map.2 ⟨x, hx, rfl⟩) e.idx (List.mem_map.2 ⟨e, hirc, rfl⟩) hxe
+  simp [this]
+
+/-- (5) unconditionally for every node reachable by a well-formed schedule -/
+theorem C02_recent_kept_reachable (ops : List Op) (h : WfOps ops) (n' : Node) (now : Int)
+    (hs : (({} : Node).run ops).snapshot now = some n') (e : LogEntry)
+    (he : e ∈ (({} : Node).run ops).irc)
+    (hnew : e.ts > now - ((if (({} : Node).run ops).exp = 0 then 600000000000 else (({} : Node).run ops).exp)
+              + expireSessionsInterval)) :
+    e ∈ n'.irc ∧ (e.idx ∈ (({} : Node).run ops).out → e.idx ∈ n'.out) := by
+  obtain ⟨_, b, I⟩ := reachable_inv ops h
+  apply C02_recent_kept _ n' now hs e he hnew
+  have hs : Sorted (({} : Node).run ops).irc := by rw [I.irc]; exact (sorted_cmds I.sorted).filter _
+  have : ((({} : Node).run ops).irc.map (·.idx)).Pairwise (· < ·) := List.pairwise_map.2 hs
+  exact this.imp (fun h => Nat.ne_of_lt h)
+
+/-- counterexample to (5) for an *unreachable* node whose log copy holds two entries with the same
+index: the old one is folded, its id is deleted from the output store, the new one stays in the log
+copy without output -/
+theorem C02_recent_kept_needs_distinct :
+    ∃ (n n' : Node) (now : Int) (e : LogEntry), n.snapshot now = some n' ∧ e ∈ n.irc ∧
+      e.ts > now - ((if n.exp = 0 then 600000000000 else n.exp) + expireSessionsInterval) ∧
+      e.idx ∈ n.out ∧ e.idx ∉ n'.out := by
+  refine ⟨{ irc := [⟨1, 0, true, none⟩, ⟨1, 100, true, none⟩], out := [1] }, _, 610000000050,
+    ⟨1, 100, true, none⟩, rfl, ?_⟩
+  decide
+
+/-! ## examples -/
+
+def cmd (i : Nat) (ts : Int) : Op := .commit ⟨i, ts, true, none⟩
+
+/-- a schedule with an index gap (entry 6 is raft-internal) and an "everything is old" snapshot -/
+def sched : List Op :=
+  [cmd 1 10, cmd 2 20, cmd 3 30, cmd 4 40, cmd 5 50,
+   .snapshot 1000000000000000, .persist,
+   .commit ⟨6, 60, false, none⟩, cmd 7 70,
+   .snapshot 1000000000000000, .persist, .restart]
+
+example : (({} : Node).run sched).live = [1, 2, 3, 4, 5, 7] := by decide
+example : (({} : Node).run sched).live = replayLive (commits sched) := by decide
+example : (({} : Node).run sched).irc = [] ∧ (({} : Node).run sched).out = [] := by decide
+example : (({} : Node).run sched).persisted.map (fun s => (s.index, s.stateIdx, s.state, s.retained)) =
+    [(7, 7, [1, 2, 3, 4, 5, 7], []), (5, 5, [1, 2, 3, 4, 5], [])] := by decide
+/-- after the first "everything is old" snapshot the log copy is empty and the next snapshot finds the
+state under key 5 although the next stored index is 7 -/
+example : (({} : Node).run (sched.take 9)).irc.map (·.idx) = [7] ∧
+    (({} : Node).run (sched.take 9)).lss = [(5, [1, 2, 3, 4, 5], 600000000000)] := by decide
+/-- a snapshot that folds only the old half, a failed write, and a restore of the older snapshot -/
+example : (({} : Node).run
+    [cmd 1 10, cmd 2 20, .snapshot 620000000015, .persist, cmd 3 30, .snapshot 620000000025,
+     .persistFail, .restoreLatest, cmd 4 40, .snapshot 620000000035, .persist, .restart]).live = [1, 2, 3, 4] := by
+  decide
+
 end Robust.Props.C02
